@@ -335,8 +335,10 @@ class ClassBuilder:
     if len(blk_parts) >= 2 and d(st.booleans()):
       k = d(st.integers(1, len(blk_parts) - 1))
       groups = [blk_parts[:k], blk_parts[k:]]
+    gnames = []
     for g in groups:
       name = self.fresh(blkname_prefix)
+      gnames.append(name)
       targets = []
       pre = []
       for ref, w, pt in g:
@@ -347,6 +349,14 @@ class ClassBuilder:
       blk = self.comb_block(targets, name)
       blk["stmts"] = pre + blk["stmts"]
       self.blocks.append(blk)
+    if self.opts["uu"]:
+      # the two blocks of one step are independent of each other: either order is a legal constraint
+      if len(gnames) == 2 and d(st.booleans()):
+        self.uu.append(gnames if d(st.booleans()) else gnames[::-1])
+      # a redundant constraint along the creation order (earlier comb block before a later one)
+      prior = [b["name"] for b in self.blocks if b["kind"] == "comb" and b["name"] not in gnames]
+      if prior and d(st.integers(0, 3)) == 0:
+        self.uu.append([d(st.sampled_from(prior)), gnames[0]])
 
   def step_signals(self):
     d = self.draw
